@@ -271,7 +271,13 @@ func runC06(c *Ctx, idx int, o *Obs) {
 			lines = append(lines, m.Newick())
 		}
 		multi := tmpFile(c, "multi.nw", strings.Join(lines, "\n")+"\n")
-		comp := tmpFile(c, "comp.nw", "("+strings.Join(append(append([]string{}, core...), "only_in_comp"), ",")+");\n")
+		compText := "(" + strings.Join(append(append([]string{}, core...), "only_in_comp"), ",") + ");\n"
+		if len(rest) >= 2 && len(core) >= 4 && r.Intn(2) == 0 {
+			// inner nodes of the compared tree labelled like tips of the input trees: labels of inner nodes are not tips
+			compText = "((" + core[0] + "," + core[1] + ")" + rest[0] + ",(" + core[2] + "," + core[3] + ")" + rest[1] + "," +
+				strings.Join(append(append([]string{}, core[4:]...), "only_in_comp"), ",") + ");\n"
+		}
+		comp := tmpFile(c, "comp.nw", compText)
 		tf := tmpFile(c, "tips.txt", strings.Join(rest, "\n")+"\n")
 		for _, mode := range []string{"comp", "tipfile", "args"} {
 			var cl []string
